@@ -124,6 +124,8 @@ __CPROVER_assigns(BR_Q->lmq_len > 0: *BV_V0)
 __CPROVER_frees(BR_Q->lmq_len > 0: BV_V0, BV_V0->m_body.ch_buf)
 __CPROVER_ensures(VP_NO_LOCK_HELD && VP_AIOQS_OK && LMQ_WF_SCALAR(BR_Q))
 __CPROVER_ensures(OLD(BR_Q->lmq_len) == 0 ==> (g_start_calls == OLD(g_start_calls) + 1 && g_start_last == aio && g_fin_calls == OLD(g_fin_calls) && BR_Q->lmq_len == 0 && aio->a_msg == OLD(aio->a_msg) && g_qa.n == OLD(g_qa.n) + (g_aio_start_ok ? 1 : 0)))
+/* C09 order: receivers are served first come first served - a new waiter joins at the TAIL, the head waiter keeps its place */
+__CPROVER_ensures((OLD(BR_Q->lmq_len) == 0 && g_aio_start_ok) ==> (g_qa.tail == aio && (OLD(g_qa.n) == 0 ? g_qa.head == aio : g_qa.head == OLD(g_qa.head))))
 __CPROVER_ensures(OLD(BR_Q->lmq_len) > 0 ==> (g_start_calls == OLD(g_start_calls) && g_fin_calls == OLD(g_fin_calls) + 1 && g_fin_last == aio && g_fin_last_rv == 0 && g_fin_last_msg == OLD(BV_V0) && g_fin_last_count == OLD(BV_V0)->m_body.ch_len && aio->a_msg == OLD(BV_V0) && BR_Q->lmq_len == OLD(BR_Q->lmq_len) - 1 && g_qa.n == OLD(g_qa.n)))
 __CPROVER_ensures((OLD(BR_Q->lmq_len) > 0 && g_j < BR_Q->lmq_len && g_j < LMQ_MAXALLOC) ==> LMQ_VIEW(BR_Q, g_j) == OLD(LMQ_VIEW(BR_Q, g_j + 1)))
 __CPROVER_ensures(BUS_RPOLL_INV)
